@@ -40,8 +40,10 @@ Theorem C08_rows_exactly_once : forall seed t nb d g,
         rows_exactly_once (mlc_ops seed t (mkMode true nb d) n0 levels) (init g) 1).
 Proof. exact rows_exactly_once_engines. Qed.
 
-(* with a seed, the whole trace (events with their positions, and the positions of every sample)
-   is the same from any two ambient generator states: the run repeats *)
+(* with a seed and a GIVEN schedule/history (the same in both runs), the whole trace is the same from
+   any two ambient generator states.  This is immediate from the model (the first instruction
+   overwrites the generator, the deques start empty); that the schedule itself repeats is the content
+   of C08_std_seeded_repeatable_derived (standard engine) and C08_seeded_repeatable_adaptive. *)
 Theorem C08_seeded_repeatable : forall s t m g1 g2,
   (forall ss, events (std_ops (Some s) t m ss) (init g1) = events (std_ops (Some s) t m ss) (init g2)
               /\ samples (std_ops (Some s) t m ss) (init g1) = samples (std_ops (Some s) t m ss) (init g2))
@@ -51,19 +53,59 @@ Theorem C08_seeded_repeatable : forall s t m g1 g2,
               /\ samples (mlp_ops (Some s) t m n0 ps) (init g1) = samples (mlp_ops (Some s) t m n0 ps) (init g2)).
 Proof. exact seeded_repeatable. Qed.
 
-(* the same without fixing the schedule: D, an arbitrary function of the history of events (with their
-   positions), chooses every instruction; if the first one is the seed the whole run is independent
-   of the ambient generator state.  (All three engine models start with OSeed.) *)
-Theorem C08_seeded_repeatable_adaptive : forall D fuel s g1 g2,
-  D [] = Some (OSeed s) -> arun fuel D (init g1) [] = arun fuel D (init g2) [].
-Proof. exact seeded_repeatable_adaptive. Qed.
+(* the same with the schedule DERIVED by the run itself from the values of the variates: val (the
+   generators as functions of the position) and nxt (the sampler/coupling logic of a sample: next fresh
+   draw given the values seen so far, the popped Poisson row first) are arbitrary.  Two seeded
+   standard-engine runs from different ambient states derive the same schedule, have the same events
+   and the same values in every sample.  (Before the fix the derived schedules differ:
+   std_derived_orig_refuted.) *)
+Theorem C08_std_seeded_repeatable_derived : forall val nxt fuel s t m n g1 g2,
+  let ss1 := std_derived val nxt fuel (Some s) t m n g1 in
+  let ss2 := std_derived val nxt fuel (Some s) t m n g2 in
+  ss1 = ss2
+  /\ len ss1 = Z.of_nat n
+  /\ events (std_ops (Some s) t m ss1) (init g1) = events (std_ops (Some s) t m ss2) (init g2)
+  /\ map (fun sm => map val (snd sm)) (samples (std_ops (Some s) t m ss1) (init g1))
+     = map (fun sm => map val (snd sm)) (samples (std_ops (Some s) t m ss2) (init g2)).
+Proof. exact std_seeded_repeatable_derived. Qed.
 
-(* worker pool, jump-time mode (no pre-drawn rows), workers seeded with pairwise different values:
-   all samples of all chunks, for every assignment of chunks to (existing) workers, use disjoint positions *)
-Theorem C08_pool_jump_mode_disjoint : forall g0 nb d n wseeds chunks,
+(* any engine: D, an arbitrary function of the instructions executed and of the events so far (with
+   their positions, hence the values), chooses every instruction -- schedules, levels, passes.  If the
+   first instruction is the seed (all three engine models start with OSeed), the instructions chosen,
+   the events and the samples do not depend on the ambient generator state; and an adaptive run is the
+   run of the instructions it chose, so the theorems above apply to it. *)
+Theorem C08_seeded_repeatable_adaptive : forall D fuel s g1 g2,
+  D [] [] = Some (OSeed s) -> arun fuel D (init g1) [] [] = arun fuel D (init g2) [] [].
+Proof. exact seeded_repeatable_adaptive. Qed.
+Theorem C08_adaptive_run_is_run : forall fuel D st oh hist,
+  exists chosen, arun fuel D st oh hist = (oh ++ chosen, hist ++ events chosen st, samples chosen st).
+Proof. exact arun_is_run. Qed.
+
+(* no pop on an empty deque (IndexError in Python): standard engine and adaptive multilevel price for
+   every schedule/history and mode; constant multilevel run when every level simulates n0 samples *)
+Theorem C08_no_underflow : forall seed t m g,
+  (forall ss, underflows (events (std_ops seed t m ss) (init g)) = O)
+  /\ (forall n0 passes, underflows (events (mlp_ops seed t m n0 passes) (init g)) = O)
+  /\ (forall nb d n0 levels, Forall (fun ss => len ss = n0) levels ->
+        underflows (events (mlc_ops seed t (mkMode true nb d) n0 levels) (init g)) = O)
+  /\ (forall nb d n0 levels, underflows (events (mlc_ops seed t (mkMode false nb d) n0 levels) (init g)) = O).
+Proof. exact no_underflow. Qed.
+
+(* worker pool of the standard engine, jump-time mode (no pre-drawn rows).  Every worker seeds itself
+   with seed_of pid now = pid * 2^32 + now (repaired tree: np.random.seed([pid, now])): distinct
+   processes get distinct seed ids, so for every assignment of chunks to workers all samples use
+   disjoint positions.  General form: any pairwise different worker seeds. *)
+Theorem C08_pool_jump_mode_disjoint : forall g0 nb d n pids now chunks,
+  NoDup pids -> Forall (fun c : nat * list sched => (fst c < length pids)%nat) chunks ->
+  NoDup (flat_map snd (snd (pool_run_pids g0 (mkMode false nb d) n pids now chunks))).
+Proof. exact pool_jump_mode_disjoint_pids. Qed.
+Theorem C08_pool_jump_mode_disjoint_seeds : forall g0 nb d n wseeds chunks,
   NoDup wseeds -> Forall (fun c : nat * list sched => (fst c < length wseeds)%nat) chunks ->
   NoDup (flat_map snd (snd (pool_run g0 (mkMode false nb d) n wseeds chunks))).
 Proof. exact pool_jump_mode_disjoint. Qed.
+Theorem C08_seed_of_distinct : forall p q t u, 0 <= t < 2 ^ 32 -> 0 <= u < 2 ^ 32 ->
+  seed_of p t = seed_of q u -> p = q /\ t = u.
+Proof. exact seed_of_inj2. Qed.
 
 (* ---- refuted on the delivered tree: F-C08-3.  Fixed-date mode with a worker pool: every chunk
    unpickles a copy of the same deques, so two workers (differently seeded) consume row 0 twice *)
@@ -90,6 +132,32 @@ Theorem C08_seed_zero_refuted :
   exists t1 t2 m ss g, samples (std_ops_orig (Some 0) t1 m ss) (init g) <> samples (std_ops_orig (Some 0) t2 m ss) (init g).
 Proof. exact seed_zero_refuted. Qed.
 
+(* ---- refuted on the delivered tree: F-C08-5.  "consumed exactly once" is false for the adaptive
+   multilevel price(): rows pre-drawn by initialisation() (deques 1, 2) and by next_level() of an added
+   level are never popped (at most once holds: C08_single_process_disjoint (2)) *)
+Theorem C08_adaptive_price_exactly_once_refuted :
+  exists seed t m n0 passes g tg,
+    In tg (created (events (mlp_ops seed t m n0 passes) (init g)))
+    /\ ~ In tg (popped (events (mlp_ops seed t m n0 passes) (init g))).
+Proof. exact adaptive_price_exactly_once_refuted. Qed.
+
+(* ---- refuted for the tree BEFORE the fix: commit of branch fix-rng2 (F-C08-8): the clock seed
+   (pid * now) mod 123456789 is the same for two processes exactly when 123456789 | (p - q) * now, in
+   particular for all processes when now = k * 123456789; then two workers in jump-time mode consume
+   the same positions *)
+Theorem C08_worker_seed_collision_exact : forall p q now,
+  seed_of_orig p now = seed_of_orig q now <-> (123456789 | (p - q) * now).
+Proof. exact seed_of_orig_collision. Qed.
+Theorem C08_worker_seeds_collide_refuted :
+  (forall p q k, seed_of_orig p (k * 123456789) = seed_of_orig q (k * 123456789))
+  /\ ~ NoDup (flat_map snd (snd (pool_run_pids_orig (mkGen (-1) 0 0) (mkMode false 1 1) 2 [4001; 4002] (13 * 123456789)
+                                   [(0%nat, [[(false, 1, false)]]); (1%nat, [[(false, 1, false)]])]))).
+Proof. exact worker_seeds_collide_refuted. Qed.
+Theorem C08_std_derived_orig_refuted :
+  exists val nxt fuel s t m n g1 g2,
+    std_derived_orig val nxt fuel (Some s) t m n g1 <> std_derived_orig val nxt fuel (Some s) t m n g2.
+Proof. exact std_derived_orig_refuted. Qed.
+
 (* non-vacuity: a concrete adaptive run (two passes, a level added) with its positions; the adaptive
    price() also pre-draws rows it never pops (created 1,2 by initialisation(), 9,10 by next_level()) *)
 Example C08_nonvacuous :
@@ -109,9 +177,19 @@ Print Assumptions C08_single_process_disjoint.
 Print Assumptions C08_samples_pairwise_disjoint.
 Print Assumptions C08_rows_exactly_once.
 Print Assumptions C08_seeded_repeatable.
+Print Assumptions C08_std_seeded_repeatable_derived.
 Print Assumptions C08_seeded_repeatable_adaptive.
+Print Assumptions C08_adaptive_run_is_run.
+Print Assumptions C08_no_underflow.
 Print Assumptions C08_pool_jump_mode_disjoint.
+Print Assumptions C08_pool_jump_mode_disjoint_seeds.
+Print Assumptions C08_seed_of_distinct.
 Print Assumptions C08_workers_share_rows_refuted.
 Print Assumptions C08_preseed_draws_refuted.
 Print Assumptions C08_reseed_per_level_refuted.
 Print Assumptions C08_seed_zero_refuted.
+Print Assumptions C08_adaptive_price_exactly_once_refuted.
+Print Assumptions C08_worker_seed_collision_exact.
+Print Assumptions C08_worker_seeds_collide_refuted.
+Print Assumptions C08_std_derived_orig_refuted.
+Print Assumptions C08_nonvacuous.
